@@ -1,6 +1,7 @@
 /-
 M-Proto proofs, part 7 (C17): the directories a cleaned absolute path needs are proper
-directory prefixes of it; hence the write loop completes on a prefix-free plan.
+directory prefixes of it; hence the write loop completes on a prefix-free plan, on every file
+system that is not in the way.
 -/
 import ThriftVerif.Proto.PlanProofs5
 import ThriftVerif.Proto.PlanProofs2
@@ -90,14 +91,17 @@ theorem apart_of_prefixFree (a b : Str) (ha : CleanAbs a) (hb : CleanAbs b)
     · exact hbn e
     · rw [h.2.2] at e; exact absurd e (by simp)
 
-/-- On an empty output tree the write loop writes the whole plan, in every iteration order, if
-the planned paths (cleaned, absolute, not "/") are pairwise different and none is a directory
-prefix of another. -/
-theorem writeLoop_complete_prefixFree (ws : Files)
+/-- The write loop writes the whole plan, in every iteration order, if the planned paths
+(cleaned, absolute, not "/") are pairwise different, none is a directory prefix of another,
+and the file system it starts on is not in the way. Afterwards the regular files are the old
+ones that were not overwritten, then the plan. -/
+theorem writeLoop_complete_prefixFree_on (fs : FS) (ws : Files)
     (hclean : ∀ a ∈ ws, CleanAbs a.1 ∧ a.1 ≠ ['/'])
-    (hpw : ws.Pairwise (fun a b => PrefixFree a.1 b.1)) :
-    ∃ fs', writeLoop ⟨[], []⟩ ws = (fs', true) ∧ fs'.files = ws := by
-  apply writeLoop_complete
+    (hpw : ws.Pairwise (fun a b => PrefixFree a.1 b.1))
+    (hfs : NotInTheWay fs ws) :
+    ∃ fs', writeLoop fs ws = (fs', true) ∧
+      fs'.files = fs.files.filter (fun x => !hasKey ws x.1) ++ ws := by
+  apply writeLoop_complete_aux
   · exact List.Pairwise.imp_of_mem
       (fun {a b} ha hb h => apart_of_prefixFree a.1 b.1 (hclean a ha).1 (hclean b hb).1
         (hclean a ha).2 (hclean b hb).2 h) hpw
@@ -106,6 +110,26 @@ theorem writeLoop_complete_prefixFree (ws : Files)
     rcases needDirs_prefix a.1 (hclean a ha).1 (hclean a ha).2 a.1 hm with e | e
     · exact (hclean a ha).2 e
     · rw [not_hasPrefix_self] at e; exact absurd e (by simp)
+  · exact hfs
+
+/-- … in particular on an empty output tree. -/
+theorem writeLoop_complete_prefixFree (ws : Files)
+    (hclean : ∀ a ∈ ws, CleanAbs a.1 ∧ a.1 ≠ ['/'])
+    (hpw : ws.Pairwise (fun a b => PrefixFree a.1 b.1)) :
+    ∃ fs', writeLoop ⟨[], []⟩ ws = (fs', true) ∧ fs'.files = ws := by
+  obtain ⟨fs', h1, h2⟩ := writeLoop_complete_prefixFree_on ⟨[], []⟩ ws hclean hpw (notInTheWay_empty ws)
+  exact ⟨fs', h1, by simpa using h2⟩
+
+/-- a sufficient condition in terms of prefixes: no existing regular file is "/" or a proper
+directory prefix of a planned path, no existing directory is a planned path. -/
+theorem notInTheWay_of_prefix (fs : FS) (ws : Files)
+    (hclean : ∀ a ∈ ws, CleanAbs a.1 ∧ a.1 ≠ ['/'])
+    (hf : ∀ q, fs.isFile q = true → q ≠ ['/'] ∧ ∀ w ∈ ws, hasPrefix (q ++ ['/']) w.1 = false)
+    (hd : ∀ d ∈ fs.dirs, ∀ w ∈ ws, d ≠ w.1) : NotInTheWay fs ws := by
+  refine ⟨fun q hq w hw hm => ?_, hd⟩
+  rcases needDirs_prefix w.1 (hclean w hw).1 (hclean w hw).2 q hm with e | e
+  · exact (hf q hq).1 e
+  · rw [(hf q hq).2 w hw] at e; exact absurd e (by simp)
 
 theorem join2_cleanAbs (out p : Str) (ho : isAbs out = true) : CleanAbs (join2 out p) := by
   obtain ⟨t, rfl⟩ := (isAbs_iff _).1 ho
@@ -121,14 +145,5 @@ theorem plan_paths_cleanAbs (root out : Str) (mods plugs ord) (ws : Files)
   intro w hw
   obtain ⟨x, _, rfl⟩ := List.mem_map.1 hw
   exact join2_cleanAbs out x.1 ho
-
-/-- a successful plan whose write paths are prefix-free is written completely. -/
-theorem plan_writeLoop_complete (root out : Str) (mods plugs ord) (ws : Files)
-    (h : generatePlan root out mods plugs ord = .ok ws) (ho : isAbs out = true)
-    (hroot : ∀ w ∈ ws, w.1 ≠ ['/'])
-    (hpw : ws.Pairwise (fun a b => PrefixFree a.1 b.1)) :
-    ∃ fs', writeLoop ⟨[], []⟩ ws = (fs', true) ∧ fs'.files = ws :=
-  writeLoop_complete_prefixFree ws
-    (fun a ha => ⟨plan_paths_cleanAbs root out mods plugs ord ws h ho a ha, hroot a ha⟩) hpw
 
 end ThriftVerif.Proto
